@@ -424,8 +424,10 @@ def gen_dataset(rng, nprng, n):
 
 
 def run_read(vu, case, k):
+    """write the file, read it with the real reader.  `k` names the path: cases given the same k are
+    written one after the other to the SAME path (a history of rewrites of one file)"""
     os.makedirs(OUT, exist_ok=True)
-    p = os.path.join(OUT, "d%d.txt" % k)
+    p = os.path.join(OUT, "d%s.txt" % k)
     with open(p, "w", encoding="utf-8", newline="") as f:
         f.write(case["content"])
     try:
@@ -435,6 +437,24 @@ def run_read(vu, case, k):
         return {"err": type(e).__name__ + ": " + str(e)[:100]}
     os.remove(p)
     return {"df": df}
+
+
+def _compact_read(c):
+    return {"content": c["content"], "names": c["names"], "fmts": c["fmts"], "n": c["n"], "sep": c["sep"], "cells": c["cells"],
+            "ts": [t.strftime("%Y-%m-%d-%H") if not isinstance(t, str) else t for t in c["ts"]]}
+
+
+def _expand_read(r):
+    return dict(r, ts=[datetime.datetime.strptime(t, "%Y-%m-%d-%H") if isinstance(t, str) else t for t in r["ts"]])
+
+
+def history_fails(vu, cases, name):
+    """write the files one after the other to one path, read after each write; first failing read"""
+    for i, c in enumerate(cases):
+        s, msg = oracle_read(c, run_read(vu, c, name))
+        if s is not None:
+            return i, s, msg
+    return None
 
 
 def oracle_read(case, res):
@@ -604,8 +624,11 @@ def replay(ctx, r):
     elif fn == "plot_2D_contour":
         res = run_plot(vp, vu, plt, r)
         s, msg = oracle_plot(r, res)
+    elif fn == "read_ec_benchmark_dataset" and "history" in r:
+        f = history_fails(vu, [_expand_read(x) for x in r["history"]], "replay")
+        s, msg = (f[1], "read %d of the history: %s" % (f[0] + 1, f[2])) if f else (None, None)
     elif fn == "read_ec_benchmark_dataset":
-        r = dict(r, ts=[datetime.datetime.strptime(t, "%Y-%m-%d-%H") for t in r["ts"]])
+        r = _expand_read(r)
         res = run_read(vu, r, 0)
         s, msg = oracle_read(r, res)
     else:
@@ -711,7 +734,9 @@ def run(ctx):
     # ---- reader cases
     sizes = [1, 2, 3, 5, 10, 37, 100, 400, 1000] * ctx.n(6, 30) + [10000] * ctx.n(3, 12)
     read_cases = [dict(gen_dataset(rng, nprng, n), function="read_ec_benchmark_dataset") for n in sizes]
-    read_res = [run_read(vu, c, k) for k, c in enumerate(read_cases)]
+    # a few paths only: successive, different files are written to the same path and read after each write
+    n_paths = 7
+    read_res = [run_read(vu, c, k % n_paths) for k, c in enumerate(read_cases)]
     read_or = [oracle_read(c, r) for c, r in zip(read_cases, read_res)]
     for c in read_cases:
         k = "read/rows=%d/cols=%d/sep=%r" % (c["n"], len(c["fmts"]), c["sep"])
@@ -814,8 +839,30 @@ def run(ctx):
         s, msg = read_or[i]
         if s is None or key(s) in seen:
             continue
-        seen.add(key(s))
         c = read_cases[i]
+        alone, _ = oracle_read(c, run_read(vu, c, "alone%d" % i))
+        if alone is None and i >= n_paths:
+            # the file reads correctly on a fresh path: the failure depends on what was at that path before
+            s = dict(s, history="same path rewritten")
+            if key(s) in seen:
+                continue
+            seen.add(key(s))
+            tiny = [dict(gen_dataset(rng, nprng, n), function="read_ec_benchmark_dataset") for n in (1, 3)]
+            hist = None
+            for cand, nm in ((tiny, "hist_a"), ([read_cases[i - n_paths], c], "hist_b"), (read_cases[i % n_paths:i + 1:n_paths], "hist_c")):
+                f = history_fails(vu, cand, nm)
+                if f is not None and f[0] > 0:
+                    hist = (cand[:f[0] + 1], f)
+                    break
+            if hist is None:
+                hist = ([read_cases[i - n_paths], c], (1, s, msg))
+            cand, (j, s2, msg2) = hist
+            ctx.violation(dict(s2, history="same path rewritten"),
+                          "read_ec_benchmark_dataset: files of %s rows written one after the other to the same path and read after each write; read %d: %s" % (
+                              [x["n"] for x in cand], j + 1, msg2),
+                          {"function": c["function"], "history": [_compact_read(x) for x in cand]})
+            continue
+        seen.add(key(s))
         rep = {"function": c["function"], "content": c["content"] if c["n"] <= 50 else "\n".join(c["content"].split("\n")[:51]) + "\n",
                "names": c["names"], "fmts": c["fmts"], "ts": [t.strftime("%Y-%m-%d-%H") for t in c["ts"][:50]], "cells": c["cells"][:50], "n": min(c["n"], 50), "sep": c["sep"]}
         ctx.violation(s, "read_ec_benchmark_dataset(file of %d rows, separator %r): %s" % (c["n"], c["sep"], msg), rep)
@@ -844,7 +891,7 @@ def run(ctx):
                        "(2-D) plus a 3-D IFORM contour, semantics None / predefined / random strings (ASCII punctuation, UTF-8 letters, sometimes ';'), paths with and without "
                        "extension, dotted directories, hidden names; plot_2D_contour: the same coordinates, swap_axis both ways, design_conditions None / True / ndarray, sample "
                        "None / array, own axes or not; reader: benchmark-format files of 1..1e4 rows, 1-4 columns, separators ';' '; ' ';  ', ordered / gapped / shuffled time stamps, "
-                       "plus a shipped dataset. non-trivial = >= 2 rows (save, reader) or a polygon with swap / design conditions / sample (plot); distinct = hash of the inputs")
+                       "every file is written to one of 7 paths, so each path is rewritten with different content and read after each write; plus a shipped dataset. non-trivial = >= 2 rows (save, reader) or a polygon with swap / design conditions / sample (plot); distinct = hash of the inputs")
     ctx.cov["trusted_base"] = ["Coq 8.16.1 kernel + vm_compute (strings as byte lists, primitive floats compared by bits)",
                                "harness tools/harness/c20.py (generators, literal printers, reading artists back through matplotlib's public getters)",
                                "printf '%1.6f' (Python's % operator supplies the formatted fields to the model): contract |parse(fmt v) - v| <= 5e-7, validated on every field by the oracle",
